@@ -195,8 +195,14 @@ func (b *Buffer) ServeHTTP(w http.ResponseWriter, req *http.Request) {
 			return
 		}
 
+		// a handler that never calls WriteHeader has answered 200, as with any http.ResponseWriter
+		if bw.code == 0 {
+			bw.code = http.StatusOK
+		}
+
 		var reader multibuf.MultiReader
-		if bw.expectBody(outReq) {
+		// a handler that never calls Write has produced an empty body: there is nothing to read back
+		if bw.expectBody(outReq) && bw.wroteBody {
 			rdr, err := writer.Reader()
 			if err != nil {
 				b.log.Error("vulcand/oxy/buffer: failed to read response, err: %v", err)
@@ -264,6 +270,7 @@ type bufferWriter struct {
 	buffer         multibuf.WriterOnce
 	responseWriter http.ResponseWriter
 	hijacked       bool
+	wroteBody      bool
 	writeError     error
 	log            utils.Logger
 }
@@ -299,6 +306,7 @@ func (b *bufferWriter) Header() http.Header {
 }
 
 func (b *bufferWriter) Write(buf []byte) (int, error) {
+	b.wroteBody = true
 	length, err := b.buffer.Write(buf)
 	if err != nil {
 		// Since go1.11 (https://github.com/golang/go/commit/8f38f28222abccc505b9a1992deecfe3e2cb85de)
